@@ -136,6 +136,8 @@ FOREIGN_V3 = v3_sid('foreign')
 HSDIRS = ['$' + hashlib.sha1(b'hsdir%d' % i).hexdigest().upper() + nick
           for i, nick in enumerate(['~alpha', '~bravo', '', '~delta', '~echo', '~foxtrot'])]
 
+SECOND_DIRS = ['$' + hashlib.sha1(b'second-hsdir%d' % i).hexdigest().upper() + nick for i, nick in enumerate(['~golf', '~hotel'])]
+
 CLIENT_BLOBS = ['QUJDREVGR0hJSktMTU5PUA', 'YWJjZGVmZ2hpamtsbW5vcA', 'MDEyMzQ1Njc4OWFiY2RlZg']     # 16 bytes, base64 unpadded
 TOR_CLIENT_BLOBS = ['dG9yZ2VuZXJhdGVkMDAwMA', 'dG9yZ2VuZXJhdGVkMDAwMQ', 'dG9yZ2VuZXJhdGVkMDAwMg', 'dG9yZ2VuZXJhdGVkMDAwMw']
 CLIENT_NAMES = ['alice', 'bob', 'carol_2', 'd-e+f']
@@ -1161,6 +1163,103 @@ class C15Run(OnionRun):
         self.segmode = ch.pick(['whole', 'mixed', 'mixed'], 'segmode')
         self.post_budget = 4 + ch.draw(30, 'post')
         self.hs_authtype = ch.pick(['UNKNOWN', 'UNKNOWN', 'NO_AUTH'], 'authtype')
+        # a second (ephemeral) service created on the same connection while the first creation is under way:
+        # at a drawn step, or at the instant Tor receives the SETEVENTS that drops HS_DESC for the first one
+        self.second_mode = [None, 'at-step', 'at-unsubscribe'][ch.weighted([4, 1, 1], 'second')]
+        self.second_at = ch.draw(40, 'secondat')
+        self.second_ndirs = 1 + ch.draw(2, 'seconddirs')
+        self.second_started = False
+        self.second_svc = None
+        self.second_plan = None
+        self.second_w = None
+        self.reply2_code = self.reply2_end = None
+
+    # ----------------------------------------------------------------- the overlapping second creation
+    def start_second(self):
+        from txtorcon import onion as O
+        sim = self.sim
+        if self.second_started or self.conn.client_gone:
+            return
+        self.second_started = True
+        sim.probe('second-creation-overlaps')
+        if 'HS_DESC' in self.proto.events:
+            sim.probe('second-creation-while-first-listens')
+        elif self.tor.subscribed and 'HS_DESC' in self.tor.subscribed:
+            sim.probe('second-creation-while-unsubscribe-in-flight')
+        dirs = SECOND_DIRS[:self.second_ndirs]
+        self.second_plan = self.make_plan('second', None, dirs, ['UPLOADED'] * len(dirs))
+        sim.log('op', 'create-second')
+        self.second_w = Watch(self, 'create()#2')
+        self.second_w.attach(O.EphemeralOnionService.create(sim.reactor, self.config, [(81, 8081)], version=3))
+        self.after_step()
+
+    def on_received(self, line):
+        OnionRun.on_received(self, line)
+        if self.create_seen >= 2:
+            self.tor.early_allowed = False
+        if (self.second_mode == 'at-unsubscribe' and not self.second_started and line.upper().startswith('SETEVENTS')
+                and 'HS_DESC' in self.tor.subscribed and 'HS_DESC' not in line.split()[1:]):
+            self.start_second()
+
+    def on_created(self, svc):
+        if self.own_svc is not None and self.second_started and self.second_svc is None:
+            self.second_svc = svc
+            self.second_plan.addr = svc.sid
+            self.sim.log('tor-service-second', svc.kind, svc.version)
+            return
+        OnionRun.on_created(self, svc)
+
+    def on_answered(self, line, reply):
+        if OnionTor.is_creating(line) and self.reply_end is not None and self.second_started and self.reply2_end is None:
+            self.reply2_code = reply.code
+            self.reply2_end = self.tor.sent
+            return
+        OnionRun.on_answered(self, line, reply)
+
+    def hs_actions(self):
+        acts = OnionRun.hs_actions(self)
+        tor = self.tor
+        if tor is None or tor.gone or tor.conn is None or tor.conn.client_gone or tor.conn.s_fin:
+            return acts
+        if self.second_plan is not None and self.second_svc is not None and self.reply2_code == 250:
+            acts += self.plan_actions(self.second_plan)
+        return acts
+
+    def second_checks(self):
+        """the overlapping second creation: same completion rule, and it must not be starved of its events"""
+        sim, w = self.sim, self.second_w
+        if w is None:
+            return True
+        alive = not self.conn.client_gone
+        d = self.tor.conn.total_s2c_delivered
+        replied = self.reply2_end is not None and d >= self.reply2_end
+        got = [e for e in self.delivered_events() if e.tag == 'second']
+        uploaded = [e for e in got if e.kind == 'UPLOADED']
+        if w.fired and w.ok:
+            if not (replied and self.reply2_code == 250) or not uploaded:
+                self.fail('C15.second-success-without-own-upload',
+                          'the second create() completed; reply %r delivered: %s, its own UPLOADED events delivered: %d' % (
+                              self.reply2_code, replied, len(uploaded)))
+            sim.probe('second-creation-completed')
+        elif w.fired:
+            if alive and self.reply2_code == 250:
+                self.fail('C15.second-create-failed', 'the second create() failed (%s) although Tor accepted it and no upload failed' % (
+                    _norm_err(w.value.getErrorMessage())[:120],))
+        elif alive and replied and self.reply2_code == 250:
+            last = self.tor.setevents[-1] if self.tor.setevents else []
+            if uploaded:
+                self.fail('C15.second-create-pending-after-own-upload',
+                          'an UPLOADED event of the second service was delivered after its reply but its create() is still pending')
+            if 'HS_DESC' not in last:
+                self.fail('C15.waiting-without-subscription',
+                          'the second create() is waiting for its descriptor upload, but the last SETEVENTS Tor received (%r) does not '
+                          'ask for HS_DESC, so it can never hear of it (HS_DESC in TorControlProtocol.events: %s)' % (
+                              ' '.join(last), 'HS_DESC' in self.proto.events))
+            if all(a['state'] == 2 for a in self.second_plan.attempts):
+                self.fail('C15.second-create-pending', 'the second create() is still pending at quiescence; its events delivered: %r' % (
+                    [e.kind for e in got],))
+            sim.probe('second-creation-pending-at-budget')
+        return w.fired
 
     def _run(self):
         from txtorcon import onion as O
@@ -1231,8 +1330,10 @@ class C15Run(OnionRun):
         while n < budget:
             if self.create.fired:
                 post += 1
-                if post > self.post_budget:
+                if post > self.post_budget and (self.second_w is None or self.second_w.fired):
                     break
+            if self.second_mode == 'at-step' and n == self.second_at and not self.second_started:
+                self.start_second()
             if not self.step():
                 break
             n += 1
@@ -1356,7 +1457,8 @@ class C15Run(OnionRun):
                     self.fail('C15.create-pending-after-all-resolved',
                               'create(await_all_uploads=True) (%s, key %s) is still pending at quiescence although every attempted upload is '
                               'resolved and at least one succeeded; %s' % (self.api, self.keyform, desc))
-        if w.fired and alive:
+        second_done = self.second_checks()
+        if w.fired and alive and second_done:
             left = 'HS_DESC' in self.proto.events
             last = self.tor.setevents[-1] if self.tor.setevents else []
             if left or 'HS_DESC' in last:
@@ -1739,7 +1841,7 @@ class C17Run(OnionRun):
         c['public_port'] = ch.pick([80, 443, 8080], 'pubport')
         c['n_clients'] = 1 + ch.draw(2, 'nclients')
         c['config_mode'] = ['instance', 'fired-deferred', 'pending-deferred'][ch.weighted([2, 1, 2], 'cfgmode')]
-        c['invalid_kind'] = ch.draw(6, 'invalidkind')
+        c['invalid_kind'] = ch.draw(7, 'invalidkind')
         c['n_dirs'] = 1 + ch.draw(3, 'ndirs')
         c['early'] = ch.chance(1, 4, 'early')
         c['n_foreign'] = ch.draw(3, 'nforeign')
@@ -2020,7 +2122,9 @@ class C17Run(OnionRun):
                     ('private_key for a filesystem service', dict(hidden_service_dir=hsdir, private_key=RSA_KEYS[USER_RSA[0]][0])),
                     ('single_hop for a filesystem service', dict(hidden_service_dir=hsdir, single_hop=True)),
                     ('both stealth_auth= and auth=', dict(hidden_service_dir=hsdir, stealth_auth=['alice'], auth=AuthBasic(['bob']))),
-                ][k % 5]
+                    ('ephemeral=True with the deprecated stealth_auth=', dict(ephemeral=True, stealth_auth=['alice', 'bob'])),
+                    ('the deprecated stealth_auth= without a directory (ephemeral implied)', dict(stealth_auth=['alice'])),
+                ][k % 7]
                 sim.log('op', 'invalid', c['form'], what)
                 TCPHiddenServiceEndpoint(sim.reactor, self.config, c['public_port'], **kw)
             elif c['form'] == 'tor-method':
@@ -2036,7 +2140,7 @@ class C17Run(OnionRun):
                     ('singleHop=maybe', ['singleHop=maybe'], dict(single_hop=False)),
                     ('privateKey with privateKeyFile', ['privateKeyFile=/nonexistent/key'], dict(kind='eph', key='bare', version=3)),
                     ('hiddenServiceDir with privateKeyFile', [], dict(kind='fs', key='file', version=3)),
-                ][k]
+                ][k % 6]
                 c.update(base)
                 if c['kind'] == 'fs':
                     if c['key'] != 'file':
@@ -2164,6 +2268,16 @@ class C17Run(OnionRun):
         if lp in sim.reactor.ports or lp.listening:
             self.fail('C17.stop-listening-leaves-listener', 'stopListening() of the result left the local listener on port %d open (%s)' % (lp.port, what))
         sim.probe('stop-listening')
+        if self.ch.chance(1, 3, 'restart'):
+            # IListeningPort: the same port object is started and stopped again
+            port.startListening()
+            if lp not in sim.reactor.ports or not lp.listening or len(sim.reactor.ports) != 1:
+                self.fail('C17.start-listening-no-listener', 'startListening() of the result did not re-open the local listener (%s)' % what)
+            port.stopListening()
+            if lp in sim.reactor.ports or lp.listening:
+                self.fail('C17.stop-listening-leaves-listener-after-restart',
+                          'stopListening() after startListening() left the local listener on port %d open (%s)' % (lp.port, what))
+            sim.probe('stop-start-stop')
 
     def final_checks(self):
         sim, c, step = self.sim, self.c, self.step_name
